@@ -102,7 +102,9 @@ fn main() {
         scale,
     };
     // panics inside oracles are caught by proptest (and by the C17/C20 oracles themselves); keep stderr quiet
-    std::panic::set_hook(Box::new(|_| {}));
+    if std::env::var("PVH_VERBOSE_PANICS").is_err() {
+        std::panic::set_hook(Box::new(|_| {}));
+    }
 
     if let Some(path) = replay {
         let text = match std::fs::read_to_string(&path) {
